@@ -46,7 +46,7 @@ type c06Case struct {
 	NeverResume bool `json:"never_resume,omitempty"`
 }
 
-var c06TermKinds = []string{"srcEOF", "srcErr", "initEOF", "initErr", "initCancel", "initSendFail", "srcSendFail", "srcSendEOF", "srcUnknownKind", "initUnknownKind", "openFail"}
+var c06TermKinds = []string{"srcEOF", "srcErr", "srcErrCanceled", "initEOF", "initErr", "initCancel", "initSendFail", "srcSendFail", "srcSendEOF", "srcUnknownKind", "initUnknownKind", "openFail"}
 
 type c06Outcome struct {
 	inFlightBoth   bool
@@ -182,6 +182,9 @@ func c06Run(t *testing.T, c c06Case) (out c06Outcome, verr error, herr error) {
 			cs.PushEOF()
 		case "srcErr":
 			cs.PushErr(status.Error(codes.Unavailable, "source went away"))
+		case "srcErrCanceled":
+			// the source (or a hop in between) ends the RPC with status Canceled: an error like any other
+			cs.PushErr(status.Error(codes.Canceled, "context canceled"))
 		case "initEOF":
 			ss.PushEOF()
 		case "initErr":
